@@ -3,7 +3,7 @@
 //! `PagedReader` on every distinct device image reached.
 
 use crate::bfs::{bfs, StepOut};
-use crate::dev::Dev;
+use crate::dev::{Chunk, Dev};
 use crate::harness::guarded;
 use crate::registry::ExtraResult;
 use e57::verif::{PagedReader, PagedWriter};
@@ -76,7 +76,30 @@ fn check_image(dev: &[u8], r: &Ref) -> Option<String> {
 }
 
 fn step(h: &[u8]) -> StepOut {
-    let r = guarded(|| step_inner(h));
+    let r = guarded(|| {
+        let full = step_inner(h, Chunk::Full);
+        if full.violation.is_some() || full.canon.is_none() {
+            return full;
+        }
+        // the same history on a device that transfers at most half of every request (short reads
+        // when a page is loaded back, short writes when it is flushed) must leave the same image
+        let half = step_inner(h, Chunk::AlwaysHalf);
+        let same = match (&full.artefact, &half.artefact) {
+            (Some(a), Some(b)) => a.1 == b.1,
+            (None, None) => true,
+            _ => false,
+        };
+        if let Some((sig, d)) = half.violation {
+            return StepOut { violation: Some((format!("{sig}/short-transfers"), format!("on a device with short transfers: {d}"))), ..full };
+        }
+        if !same {
+            return StepOut {
+                violation: Some(("C11/short-transfers-change-image".into(), format!("device image differs when the device transfers half of every request; history: {}", history_name(h)))),
+                ..full
+            };
+        }
+        full
+    });
     match r {
         Ok(s) => s,
         Err(pi) => StepOut {
@@ -87,8 +110,9 @@ fn step(h: &[u8]) -> StepOut {
     }
 }
 
-fn step_inner(h: &[u8]) -> StepOut {
+fn step_inner(h: &[u8], chunk: Chunk) -> StepOut {
     let dev = Dev::empty();
+    dev.with(|s| s.chunk = chunk);
     let view = dev.handle();
     let mut w = match PagedWriter::new(dev) {
         Ok(w) => w,
@@ -372,7 +396,7 @@ pub fn extra(thorough: bool, _seed: u64, deadline: Instant) -> ExtraResult {
         .collect();
     let json = J::obj()
         .with("space", J::s("c11.bfs+read"))
-        .with("what", J::s("explicit-state BFS over PagedWriter histories (26-op alphabet, logical length <= 4 pages) with invariants I1-I5 on every transition and at every flush/drop point; then every read-op sequence on every distinct device image"))
+        .with("what", J::s("explicit-state BFS over PagedWriter histories (26-op alphabet, logical length <= 4 pages) with invariants I1-I5 on every transition and at every flush/drop point, each history executed on a full-transfer device and on a device transferring half of every request (images must be identical); then every read-op sequence on every distinct device image"))
         .with("bfs_depth_bound", J::Int(max_depth as i64))
         .with("bfs_depth_reached", J::Int(res.depth_reached as i64))
         .with("bfs_fixpoint", J::Bool(res.fixpoint))
